@@ -180,7 +180,9 @@ def finish(prop, pd, tier, seed, results, wall, write_baseline=False):
     for o in obligations[:4] + [o for o in obligations if o["status"] != "discharged"][:4]:
         samples.append({k: o.get(k) for k in ("name", "status", "backend", "time_s", "line", "detail", "inputs", "replay") if o.get(k) is not None})
     cov = {
-        "obligations": n_obl, "discharged": n_dis, "known_finding_region": n_known,
+        # obligations decided as proved on this tree; conjuncts that lie inside a recorded known-finding region are
+        # refuted by design and are counted separately
+        "obligations": n_obl - n_known, "discharged": n_dis, "known_finding_region": n_known,
         "checker_cmd": "python3-vt /verif/check.py %s --tier %s" % (prop, tier),
         "trusted_base": ["pyvc VC generator (/verif/pyvc)", "z3-solver 5.1.0 (python3-vt)", "cvc5 1.0.3 (/usr/bin/cvc5, second opinion on unknown)",
                          "spec functions in /verif/spec (validated against the installed CPythons: spec/ref/oracle_*.json)",
@@ -201,11 +203,13 @@ def finish(prop, pd, tier, seed, results, wall, write_baseline=False):
     }
     ev = {"property_id": prop, "tier": tier if tier in ("quick", "thorough") else "quick", "seed": seed, "level": level, "coverage": cov,
           "assumptions": assumptions, "wall_s": round(wall, 2), "violations": len(violations)}
-    os.makedirs(os.path.join(VERIF, "evidence"), exist_ok=True)
-    with open(os.path.join(VERIF, "evidence", "%s.json" % prop), "w") as f:
+    scratch = os.environ.get("XDIS_REPO", "/repo") != "/repo"
+    evdir = os.path.join(VERIF, ".work", "evidence") if scratch else os.path.join(VERIF, "evidence")
+    os.makedirs(evdir, exist_ok=True)
+    with open(os.path.join(evdir, "%s.json" % prop), "w") as f:
         json.dump(ev, f, indent=1, default=str)
 
-    if write_baseline:
+    if write_baseline and not scratch:
         baseline[prop] = sorted(unit_ok)
         with open(os.path.join(VERIF, "baseline_units.json"), "w") as f:
             json.dump(baseline, f, indent=1, sort_keys=True)
